@@ -195,6 +195,11 @@ pub fn verify_stark_proof_with_challenges_circuit<
             min_degree_bits_to_support,
         );
     } else {
+        // A fixed-degree circuit: the FRI verifier below uses the static `degree_bits`, so the
+        // `degree_bits` witness (from which `Z_H(zeta)`, `L_0`, `L_last` and the subgroup generator
+        // are computed above) must be that very value.
+        let expected_degree_bits = builder.constant(F::from_canonical_usize(degree_bits));
+        builder.connect(proof.degree_bits, expected_degree_bits);
         builder.verify_fri_proof::<C>(
             &fri_instance,
             &proof.openings.to_fri_openings(zero),
